@@ -391,12 +391,12 @@ func vStoreShards(mode, tier string) []vShard {
 	depth, maxAdd, maxSess := 4, 3, 1
 	if mode == "c09" {
 		cfgs = vC09Cfgs(tier)
-		depth, maxAdd, maxSess = 6, 3, 3
+		depth, maxAdd, maxSess = 7, 3, 3
 	}
 	if tier == "thorough" {
 		depth++
 		if mode == "c09" {
-			depth, maxAdd, maxSess = 8, 4, 4
+			depth, maxAdd, maxSess = 9, 4, 4
 		}
 	}
 	for _, cfg := range cfgs {
